@@ -1124,7 +1124,7 @@ def emit(repo, pid, out_path):
     imports = set()
     chunks = []
     for spec in KERNELS.get(pid, []):
-        rec = {"kernel": spec["name"], "kind": spec.get("kind", "function"), "source": "%s::%s" % (spec["file"], spec["func"]) + (" (local %s)" % spec["target"] if spec.get("kind") == "local" else ""),
+        rec = {"kernel": spec["name"], "kind": spec.get("kind", "function"), "strict": bool(spec.get("strict", True)), "source": "%s::%s" % (spec["file"], spec["func"]) + (" (local %s)" % spec["target"] if spec.get("kind") == "local" else ""),
                "model": spec["model_name"], "status": None}
         recs.append(rec)
         try:
